@@ -241,6 +241,8 @@ class Explorer:
                         return self.resolve_import(mn, attr)
                     if is_repo_module(mn + "." + attr):
                         return Conc(("module", mn + "." + attr))
+                    if ("value", f"{mn}.{attr}") in self.reg.stubs:
+                        return self.reg.stubs[("value", f"{mn}.{attr}")]
                     if attr in EXC_PARENT or f"{mn}.{attr}" in EXC_PARENT:
                         return Conc(("exc_class", attr if attr in EXC_PARENT else f"{mn}.{attr}"))
                     return Conc(("ext", f"{mn}.{attr}"))
